@@ -756,6 +756,8 @@ def c12_body(ctx, post):
                [[], ["print"], ["diff"], ["diff", "v"], ["print", "si"], ["diff", "sg"], ["si"], ["print", "sg", "si"], ["v"],
                 ["diff", "print"], ["diff", "print", "v", "sg"], ["diff", "print", "si"]],
                {"write", "stdout", "desc", "diffapply"}, 25, 500, post=post)
+    # the output modes must agree however the files are named (relative, absolute, overlapping, repeated)
+    arg_forms_family(ctx, "output modes disagree")
     # F17: a patched file with CRLF line endings
     sc = Scenario("f17", ["@@\n@@\n-zzz(1)\n+yyy(1)\n"], {"crlf.go": "package odd\r\n\r\nfunc crlf() {\r\n\tzzz(1)\r\n}\r\n"}, "crlf-matched")
     run_scenarios(ctx, [sc], [["diff"], ["print"], []], {"write", "stdout", "desc", "diffapply"}, None)
@@ -780,18 +782,27 @@ def matching_cases(ctx, cases, want, rng):
 def c18(ctx):
     ctx.rule = CLI_RULE + (" For this property the table of header shapes (marker line, marker after a licence header, @generated in "
                            "the package comment, build tag + marker, six near-miss spellings, @generated in a detached comment, marker "
-                           "after the package clause, no header) is enumerated exhaustively against patches that do match the file body; "
+                           "after the package clause, a marker after the package clause that is followed by a line starting with 'package' inside a raw string or a comment, no header) is enumerated exhaustively against patches that do match the file body; "
                            "the model side evaluates checkGenerated (Lean) on the comment structure.")
     rng = random.Random(ctx.seed)
     cases = gen_cases(ctx, "mix", 120, ctx.seed)
     bases = matching_cases(ctx, cases, 3 if ctx.tier == "quick" else 25, rng)
-    headers = GENERATED_HEADERS + [("marker-after-package", None, False), ("marker-in-body", None, False)]
+    headers = GENERATED_HEADERS + [("marker-after-package", None, False), ("marker-in-body", None, False),
+                                   ("marker-then-package-line-in-raw-string", None, False), ("marker-then-package-line-in-comment", None, False),
+                                   ("marker-in-raw-string-at-line-start", None, False)]
     scen = []
     for bi, base in enumerate(bases):
         for name, hdr, isgen in headers:
             src = base["src"]
             if hdr is None and name == "marker-after-package":
                 src = src.replace("\n", "\n// Code generated by x. DO NOT EDIT.\n", 1)
+            elif hdr is None and name == "marker-then-package-line-in-raw-string":
+                # the package clause is the first line; below it a generator's template, which itself starts like a generated file
+                src = src.replace("\n", "\n\nconst tmpl = `\n// Code generated by x. DO NOT EDIT.\n\npackage {{.Name}}\n`\n", 1)
+            elif hdr is None and name == "marker-then-package-line-in-comment":
+                src = src.replace("\n", "\n\n// Code generated by x. DO NOT EDIT.\n\n/*\npackage old\n*/\n", 1)
+            elif hdr is None and name == "marker-in-raw-string-at-line-start":
+                src = "// Package doc.\n" + src + "\nvar hdr = `\n// Code generated by x. DO NOT EDIT.\npackage y\n`\n"
             elif hdr is None:
                 src = src + "\n// Code generated by x. DO NOT EDIT.\n"
             else:
@@ -1137,6 +1148,8 @@ def c14(ctx):
                 ctx.violation("grouped run differs from the solo runs of its files: " + "; ".join(found[:3]), {
                     "input": {"patches": sc.patches, "files": sc.files, "flags": flags_of(opts), "args": targs},
                     "observed": {"exit": obs["exit"], "stderr": obs["stderr"][-1500:]}, "problems": found})
+    # the same files named in several forms, through excluded directories, in different orders
+    arg_forms_family(ctx, "a file's result depends on how and where it was named among the arguments")
     # library API: repeated and concurrent Apply on one parsed patch
     outs = run_api(ctx, cases[: (150 if ctx.tier == "quick" else 2000)], rep=3, conc=8)
     byid = {c["id"]: c for c in cases}
@@ -1149,6 +1162,110 @@ def c14(ctx):
             c = byid[o["id"]]
             ctx.violation(f"Apply is not repeatable (sequential same={o['repeat_same']}, concurrent same={o['conc_same']})",
                           {"input": {"patches": c["patches"], "src": c["src"]}})
+
+# --- argument forms (shared by C12 and C14) ----------------------------------
+ARGFORM_TREE = {"a.go": "f", "sub": {"b.go": "f", ".hid": {"f.go": "f"}}, "testdata": {"c.go": "f", "cases": {"g.go": "f"}},
+                "vendor": {"dep": {"d.go": "f"}}, "_gen": {"e.go": "f"}, "notes.txt": "f"}
+ARGFORM_ARGS = [[".", "$ROOT"], ["$ROOT", "."], ["./...", "testdata/c.go", "vendor/dep/d.go"], ["testdata/c.go", "./..."],
+                [".", "_gen/e.go", "sub/.hid/f.go"], ["$ROOT/sub", "sub/b.go", "./sub/..."], ["./...", "./testdata/cases/..."],
+                ["sub", "$ROOT/sub/b.go", "a.go", "./a.go"], ["$ROOT/...", "sub/..", "testdata/cases/g.go"], ["a.go", "a.go", "$ROOT/a.go"]]
+
+def arg_forms_family(ctx, what):
+    """One small tree, a patch that is not idempotent (a file processed twice shows), argument lists that name the
+    same files in several forms / through excluded directories / in different orders.  Which files are processed
+    comes from the Lean walk model; what each file becomes comes from a run on that file alone."""
+    patch = "# wrap the argument\n@@\nvar x expression\n@@\n-foo(x)\n+foo(wrap(x))\n"
+    base = ctx.scratch("argforms")
+    os.chmod(base, 0o755)
+    base_comps = [c for c in base.split("/") if c]
+    def src_of(rel):
+        return f"package x\n\nfunc {re.sub(r'[^a-z]', '', rel)}() {{\n\tfoo({len(rel)})\n}}\n"
+    def build(root):
+        materialize(root, ARGFORM_TREE)
+        for pth, v in all_paths(ARGFORM_TREE):
+            if v == "f" and pth.endswith(".go"):
+                with open(os.path.join(root, pth), "w") as f:
+                    f.write(src_of(pth))
+        with open(os.path.join(root, "p.patch"), "w") as f:
+            f.write(patch)
+    gofiles = [pth for pth, v in all_paths(ARGFORM_TREE) if v == "f" and pth.endswith(".go")]
+    # solo results
+    solo_root = os.path.join(base, "solo")
+    build(solo_root)
+    solo = {}
+    for rel in gofiles:
+        code, out, err = cl.gopatch(ctx.gopatch, solo_root, ["-p", "p.patch", "--print-only", rel])
+        solo[rel] = out.decode()
+    # model: processed lists
+    lines = []
+    for k, args in enumerate(ARGFORM_ARGS):
+        cwd_name = f"w{k}"
+        root = os.path.join(base, cwd_name)
+        real = [a.replace("$ROOT", root) for a in args]
+        t = dict(ARGFORM_TREE, **{"p.patch": "f"})
+        node = tree_sx(cwd_name, t)
+        for c in reversed(base_comps):
+            node = f"(d {cl.sx_quote(c)} {node})"
+        node = f'(d "" {node})'
+        cwd = " ".join(cl.sx_quote(c) for c in base_comps + [cwd_name])
+        lines.append(f'(case w{k} walk (cwd {cwd}) (args {" ".join(cl.sx_quote(a) for a in real)}) (tree {node}))')
+    r = subprocess.run([ctx.driver], input="\n".join(lines) + "\n", stdout=subprocess.PIPE, stderr=subprocess.PIPE, text=True)
+    model = {}
+    for l in r.stdout.splitlines():
+        sx = parse_sx(l)
+        if sx and sx[0] == "res":
+            fl = common.sx_field(sx[2:], "files")
+            model[sx[1]] = None if fl is None else [cl.sx_unquote(x) for x in fl]
+    for k, args in enumerate(ARGFORM_ARGS):
+        want_abs = model.get(f"w{k}")
+        if want_abs is None:
+            ctx.broken("driver", f"argument forms: no model answer for {args}")
+            continue
+        for mode in ([], ["--print-only"], ["--diff"]):
+            root = os.path.join(base, f"w{k}")
+            shutil.rmtree(root, ignore_errors=True)
+            build(root)
+            real = [a.replace("$ROOT", root) for a in args]
+            want = [w[len(root) + 1:] for w in want_abs]
+            code, out, err = cl.gopatch(ctx.gopatch, root, ["-p", "p.patch"] + mode + real)
+            ctx.evaluations += 1
+            ctx.nontrivial.add("argforms:" + " ".join(args) + "|" + " ".join(mode))
+            ctx.count("argforms:" + (mode[0] if mode else "in-place"))
+            so, se = out.decode("utf-8", "replace"), err.decode("utf-8", "replace")
+            probs = []
+            if code != 0:
+                probs.append(f"exit {code}: {se.strip()[:200]}")
+            after = {rel: open(os.path.join(root, rel)).read() for rel in gofiles}
+            if not mode:
+                for rel in gofiles:
+                    exp = solo[rel] if rel in want else src_of(rel)
+                    if after[rel] != exp:
+                        probs.append(f"{rel}: written bytes differ from the result of processing it alone once" if rel in want
+                                     else f"{rel}: not among the requested files but modified")
+            else:
+                for rel in gofiles:
+                    if after[rel] != src_of(rel):
+                        probs.append(f"{rel}: modified by a dry run")
+                if mode == ["--print-only"]:
+                    if so != "".join(solo[rel] for rel in want):
+                        probs.append("printed bytes differ from the per-file results of the requested files, each once, in path order")
+                else:
+                    chunks = split_diff(so)
+                    nhdr = sum(1 for l in so.split("\n") if l.startswith("--- "))
+                    if nhdr != len(want):
+                        probs.append(f"{nhdr} diffs printed for {len(want)} requested files")
+                    for name, chunk in chunks.items():
+                        rel = name[len(root) + 1:] if name.startswith(root + "/") else os.path.normpath(name)
+                        if rel in solo and cl.apply_unified_diff(src_of(rel), chunk) not in (solo[rel], solo[rel].rstrip("\n")):
+                            probs.append(f"{rel}: the printed diff does not produce the bytes written in place")
+                ndesc = sum(1 for l in se.split("\n") if l.endswith("wrap the argument"))
+                if ndesc != len(want):
+                    probs.append(f"{ndesc} descriptions on stderr for {len(want)} patched files")
+            if probs:
+                ctx.violation(f"{what}: arguments {args} {' '.join(mode) or '(in place)'}: " + "; ".join(probs[:3]),
+                              {"input": {"patch": patch, "tree": sorted(gofiles), "args": args, "flags": mode}, "problems": probs,
+                               "requested_files": want, "stderr": se[-600:],
+                               "reproduce": "create the tree (each .go file: package x; func f() { foo(N) }), cd into it ($ROOT = its absolute path), gopatch -p p.patch <flags> <args>"})
 
 # --- C16 -------------------------------------------------------------------
 REPLACE_ERR = ("@@\nvar x expression\n@@\n-foo(x)\n+bar.x\n", "package a\n\nfunc f() {\n\tfoo(g(1))\n}\n")
@@ -1167,8 +1284,9 @@ def c16(ctx):
     ctx.level = "proof"
     ctx.rule = CLI_RULE + (" For this property failures are enumerated: a file that does not parse / whose rewrite fails / whose result "
                            "is not valid Go, at the first, middle and last position of a 3..5 file run; a missing path argument; a missing "
-                           "patch file; a patches-file naming a missing patch; an unreadable target (run as uid 65534); and a write cut "
-                           "short by RLIMIT_FSIZE at several byte counts.")
+                           "patch file; a patches-file naming a missing patch; an unreadable target (run as uid 65534); a target whose temporary "
+                           "sibling cannot be created (250-byte name; read-only directory with a writable file, as uid 65534) with a patch "
+                           "that shrinks the file; and a write cut short by RLIMIT_FSIZE at several byte counts.")
     rng = random.Random(ctx.seed)
     cases = gen_cases(ctx, "mix", 120 if ctx.tier == "quick" else 1500, ctx.seed)
     good = matching_cases(ctx, cases, 4 if ctx.tier == "quick" else 40, rng)
@@ -1269,6 +1387,47 @@ def c16(ctx):
         if probs:
             ctx.violation("; ".join(probs), {"fault": "fsize-multi", "input": {"files": ["src/a_broken.go (unparseable)", "src/b_big.go (600 calls, write exceeds the limit)", "src/c_small.go", "src/m_rewrite.go (rewrite error)"],
                                                                               "run": "prlimit --fsize=2048 gopatch -p p.patch src"}, "stderr": e[-800:]})
+    # the temporary file next to the target cannot be created (name too long; read-only directory): with a patch that makes the
+    # file shorter, any fallback that writes in place leaves the old tail behind the new content
+    shrink_patch = "@@\nvar x expression\n@@\n-verylongfunctionname(x)\n+f(x)\n"
+    shrink_src = "package a\n\nfunc g() {\n" + "".join(f"\tverylongfunctionname({i})\n" for i in range(40)) + "}\n"
+    shrink_want = shrink_src.replace("verylongfunctionname(", "f(")
+    def shrink_verdict(label, name, code, e, after, other_after):
+        probs = []
+        if after not in (shrink_src, shrink_want):
+            probs.append(f"{label}: the target holds neither its original nor its complete patched bytes ({len(after)} bytes)")
+        elif after == shrink_src and (code == 0 or name[:40] not in e):
+            probs.append(f"{label}: the target was not patched but the exit status is {code} / stderr does not name it")
+        if other_after != shrink_want:
+            probs.append(f"{label}: the other file of the run was not patched")
+        for pr in probs:
+            ctx.violation(pr, {"fault": label, "input": {"patch": shrink_patch, "files": [name, "plain.go"]}, "exit": code if isinstance(code, int) else -1, "stderr": e[-400:]})
+    longname = "x" * 247 + ".go"
+    root = ctx.scratch("longname")
+    cl.write_tree(root, {"d/" + longname: shrink_src, "d/plain.go": shrink_src, "p.patch": shrink_patch})
+    code, out, err = cl.gopatch(ctx.gopatch, root, ["-p", "p.patch", "d"])
+    ctx.evaluations += 1
+    ctx.nontrivial.add("tmp-name-too-long")
+    shrink_verdict("temporary name too long", longname, code, err.decode("utf-8", "replace"),
+                   open(os.path.join(root, "d", longname)).read(), open(os.path.join(root, "d", "plain.go")).read())
+    if os.geteuid() == 0 and shutil.which("setpriv"):
+        root = ctx.scratch("rodir")
+        os.chmod(root, 0o755)
+        cl.write_tree(root, {"ro/a.go": shrink_src, "rw/plain.go": shrink_src, "p.patch": shrink_patch})
+        binp = os.path.join(root, "gopatch.bin")
+        shutil.copy(ctx.gopatch, binp)
+        os.chmod(binp, 0o755)
+        os.chmod(os.path.join(root, "p.patch"), 0o644)
+        for dname, mode in (("ro", 0o555), ("rw", 0o777)):
+            for n in os.listdir(os.path.join(root, dname)):
+                os.chmod(os.path.join(root, dname, n), 0o666)
+            os.chmod(os.path.join(root, dname), mode)
+        code, out, err = cl.gopatch(binp, root, ["-p", "p.patch", "ro", "rw"], prefix=["setpriv", "--reuid=65534", "--regid=65534", "--clear-groups"])
+        ctx.evaluations += 1
+        ctx.nontrivial.add("read-only-directory")
+        shrink_verdict("read-only directory, writable file", "ro/a.go", code, err.decode("utf-8", "replace"),
+                       open(os.path.join(root, "ro", "a.go")).read(), open(os.path.join(root, "rw", "plain.go")).read())
+        os.chmod(os.path.join(root, "ro"), 0o755)
     # write cut short
     if shutil.which("prlimit"):
         root = ctx.scratch("fsize")
@@ -1683,6 +1842,23 @@ def layout_variant(rng, patch):
     text = "\n".join(desc + [header] + meta + ["@@"] + body) + "\n"
     return text, done
 
+QUOTE_TABLE = [
+    ("@@\nvar s expression\n@@\n if s == \"`\" {\n-\tfoo(s)\n+\tbar(s)\n }\n",
+     "package a\n\nfunc f(t string) {\n\tif t == \"`\" {\n\t\tfoo(t)\n\t}\n}\n"),
+    ("@@\nvar s expression\n@@\n-foo(s, '`')\n+bar(s, '`')\n",
+     "package a\n\nfunc f(t string) {\n\tfoo(t, '`')\n}\n"),
+    ("@@\nvar s expression\n@@\n-foo(s, `\"`, '\"')\n+bar(s)\n",
+     "package a\n\nfunc f(t string) {\n\tfoo(t, `\"`, '\"')\n}\n"),
+    ("@@\nvar s expression\n@@\n-foo(s, \"//\", \"/*\")\n+bar(s, \"*/\")\n",
+     "package a\n\nfunc f(t string) {\n\tfoo(t, \"//\", \"/*\")\n}\n"),
+    ("@@\nvar s expression\n@@\n-foo(s, \"#\", '#', `#`)\n+bar(s, \"#\")\n",
+     "package a\n\nfunc f(t string) {\n\tfoo(t, \"#\", '#', `#`)\n}\n"),
+    ("@@\nvar s expression\n@@\n x := \"'\"\n-foo(s, x)\n+bar(s, x)\n y := '\\''\n",
+     "package a\n\nfunc f(t string) {\n\tx := \"'\"\n\tfoo(t, x)\n\ty := '\\''\n}\n"),
+    ("@@\nvar s expression\n@@\n-foo(s) // it's `odd\n+bar(s) /* \" */\n",
+     "package a\n\nfunc f(t string) {\n\tfoo(t)\n}\n"),
+]
+
 @prop("C13")
 def c13(ctx):
     ctx.rule = ("for generated (patch, file) pairs the patch is re-laid-out by one of: '#' lines inserted in the metavariable section and the "
@@ -1707,6 +1883,15 @@ def c13(ctx):
             if done:
                 batch.append({"id": f"o{i}v{j}", "patches": [text], "src": c["src"]})
                 meta_info[f"o{i}v{j}"] = (f"o{i}", done)
+    # directed table: pattern lines that carry quote characters of another literal kind, comment markers inside
+    # literals, the '#' of the patch language inside literals; a '#' line inserted after every line in turn
+    for qi, (qp, qs) in enumerate(QUOTE_TABLE):
+        batch.append({"id": f"q{qi}", "patches": [qp], "src": qs})
+        qlines = qp.rstrip("\n").split("\n")
+        for k in range(1, len(qlines) + 1):
+            text = "\n".join(qlines[:k] + ["# a remark"] + qlines[k:]) + "\n"
+            batch.append({"id": f"q{qi}v{k}", "patches": [text], "src": qs})
+            meta_info[f"q{qi}v{k}"] = (f"q{qi}", [f"comment-line-after-line-{k}"])
     d = ctx.scratch("c13")
     p = os.path.join(d, "in.jsonl")
     with open(p, "w") as f:
